@@ -31,8 +31,9 @@ for pid in ids:
                    + (f"; harnesses in which no assertion stayed symbolic: {', '.join(conc)}" if conc else "") + ". ")
         if q == 0 and smt_asserts == 0:
             technique = ("symbolic execution of go/ssa in which every input dimension of the stated bound is forked into concrete alternatives "
-                         "(schedules, choices, small value sets): the engine explores every resulting path exhaustively and no symbolic value "
-                         "reaches a branch or assertion, so no SMT query arises; native replay of counterexamples")
+                         "(schedules, choices, small value sets) and the engine explores every resulting path exhaustively; data that stays symbolic "
+                         "(payload bytes) never reaches a branch and meets assertions only as syntactically identical terms, which the hash-consed "
+                         "term table decides for all values without a query, so no SMT query arises in this check; native replay of counterexamples")
         elif smt_asserts == 0:
             technique = ("symbolic execution of go/ssa + SMT (z3/cvc5), bounded: symbolic inputs decide branches (feasibility by SMT), assertions "
                          "evaluate to constants on every path; native replay of counterexamples")
